@@ -67,6 +67,26 @@ def families(ctx):
         sch = [i for i in range(4) for _ in range(5)]
         rnd.shuffle(sch)
         fams.append(fam_text("st4.%s.t%d" % ("+".join(P[i][0] for i in idx), t), rnd.choice(K), [P[i] for i in idx], sch, cut=True))
+    # state carried ACROSS calls: parser A's request (or response) is cut near its end - inside a urlencoded field, a multipart delimiter, a
+    # compressed stream, a chunk, a header line - and parser B runs completely between the two pieces
+    def custom(name, kline, blocks, schedule):
+        out = ["M " + name, "K " + kline]
+        for i, lines in enumerate(blocks):
+            out.append("P %d" % i); out += lines; out.append("C")
+        out.append("O " + " ".join(str(x) for x in schedule)); out.append("E")
+        return "\n".join(out) + "\n"
+    mids = []
+    for a, b in pairs:
+        qa, sa = P[a][1], P[a][2]
+        for side, data in ((">", qa), ("<", sa)):
+            for p in sorted(set([len(data) - k for k in range(1, 13) if len(data) - k > 0] + [len(data) // 3, len(data) // 2])):
+                la = ([side + " " + data[:p].hex(), side + " " + data[p:].hex()] + ["< " + sa.hex()]) if side == ">" else (["> " + qa.hex(), "< " + data[:p].hex(), "< " + data[p:].hex()])
+                lb = ["> " + P[b][1].hex(), "< " + P[b][2].hex()]
+                # A1 [A2 if the cut is in the response] B B B A...   : B complete (request, response, close) between A's two pieces
+                sch = ([0] if side == ">" else [0, 0]) + [1, 1, 1] + ([0, 0, 0] if side == ">" else [0, 0])
+                mids.append(custom("mid.%s+%s.%s%d" % (P[a][0], P[b][0], "q" if side == ">" else "s", p), K[(a + b + p) % len(K)], [la, lb], sch))
+    rnd.shuffle(mids)
+    fams += mids[:1200 if q else len(mids)]
     thr = []
     for t in range(12 if q else 200):
         n = rnd.choice((2, 3, 4, 8))
